@@ -2,7 +2,9 @@
 """Runs the pinned suite (tools/baseline.sh) and compares with BASELINE.json stable_pass."""
 import json, subprocess, sys
 want = set(json.load(open('/root/.vp/BASELINE.json'))['stable_pass'])
-p = subprocess.run(['sh', '/verif/tools/baseline.sh'], capture_output=True, text=True)
+import os
+env = {k: v for k, v in os.environ.items() if k not in ("GOFLAGS", "GOWORK", "GOPROXY", "GOSUMDB", "GOTOOLCHAIN")}
+p = subprocess.run(["sh", "/verif/tools/baseline.sh"], capture_output=True, text=True, env=env)
 passed = set()
 for line in p.stdout.splitlines():
     try: ev = json.loads(line)
